@@ -47,6 +47,12 @@ CHECKS = {
  'C10': ('exploration', 'seeded deterministic simulation: EOF instants, source chains, yywrap policies and post-termination calls, checked against the stream reference model',
          'sampled scenarios x plans; the end-of-source instant is placed by the read schedule, premature end indications included',
          'trusts: the reference matcher with triage; a pending yymore prefix across a source change is relaxed (manual silent)', '6 C10'),
+ 'C16': ('fault_enumeration', 'deterministic fault injection on the flex process tree: size limits at enumerated byte offsets per output file, /dev/full, unwritable paths, closing stdout reader, dying m4; seeded mutation of input files under a sanitizer build',
+         'per (input, option set): write limits N in {0,1,4095,4096,4097,|F|-1,...} on each output file; corpus = the repo\'s .l files and 17 seeded mutators; outcome compared with the fault-free run of the same command',
+         'trusts: RLIMIT_FSIZE / /dev/full as disk-full model (mid-file EIO on a regular file cannot be produced); ASan/UBSan build of flex; generated C is not compiled (C02)', '6 C16'),
+ 'C18': ('exploration', 'seeded perturbation of the flex process environment (LD_PRELOAD allocator shim with junk fill / moving realloc / padding, MALLOC_PERTURB_, ASLR, env size, cwd, pid, affinity, -o versus -t) with byte-identity oracle; bootstrap fix-point',
+         'sampled (input, option set) x 25 perturbations + 2 output routings; scanner, header, tables, backup compared byte for byte; every perturbation is verified to have been applied',
+         'trusts: the shim really changes allocation contents/layout (self-reported counters); time is not perturbed (flex imports no clock symbol)', '6 C18'),
 }
 m = {
  'version': 1,
@@ -59,8 +65,10 @@ m = {
   'add_only': True,
  },
  'engines': [
-  {'name': 'flexsim', 'path': 'sim/', 'serves_properties': sorted(CHECKS),
+  {'name': 'flexsim', 'path': 'sim/', 'serves_properties': sorted(c for c in CHECKS if c not in ('C16', 'C18')),
    'kind_free_text': 'deterministic simulator for flex-generated scanners: plan interpreter in C (sources, allocator ledger, fatal hook, yywrap, baton scheduler) + Python scenario/plan generators, reference model, shrinker, replay'},
+  {'name': 'worldp', 'path': 'sim/worldp/', 'serves_properties': ['C16', 'C18'],
+   'kind_free_text': 'flex-process world: one flex process tree per case under a controlled kernel/libc environment (size limits, /dev/full, stub m4, closing reader, allocator shim, ASLR, affinity), outcome compared with the unperturbed run'},
  ],
  'checks': [],
  'not_applicable': [],
@@ -74,7 +82,7 @@ for pid in sorted(CHECKS):
      'thorough_cmd': 'python3 sim/check.py %s --tier thorough' % pid,
      'evidence_file': 'evidence/%s.json' % pid,
      'replay_cmd_template': 'python3 sim/check.py --replay {path}',
-     'engine': 'flexsim',
+     'engine': 'worldp' if pid in ('C16', 'C18') else 'flexsim',
      'level_claimed': {'category': lvl, 'text': text, 'design_ref': 'DESIGN.md section ' + ref},
      'level_note': note,
      'technique': tech,
